@@ -48,8 +48,15 @@ def oracle(cfg, trace, residue):
         where = [x for x, v in live.items() if v == sid and x[1] == op['ns']]
         if not where:
             continue                 # not a live session on that namespace: only the exception class is compared
-        if im['exc']:
+        if im['exc'] and not (k == 'session_block' and op.get('raise_inside') and im['exc'] == 'HandlerError'):
             fails.append((None, '%s on a live session raised %s' % (k, im['exc'])))
+            continue
+        if k == 'session_block' and op.get('raise_inside'):
+            # modifications made inside the block are persisted when the block exits, also by an exception
+            want = dict(store.get(sid, {}))
+            want[op['k']] = op['v']
+            store[sid] = copy.deepcopy(want)
+            hist[where[0]] = True
             continue
         key = where[0]
         if k == 'save_session':
